@@ -160,10 +160,35 @@ func (r *Recorder) Flush() {
 }
 
 // Main is used as TestMain body by every harness package.
+var (
+	failLaterMu sync.Mutex
+	failLater   []string
+)
+
+// FailLater registers a violation found outside any test function's context (helper code shared by several tests);
+// Main turns it into a failing exit after the tests have run.
+func FailLater(msg string) {
+	failLaterMu.Lock()
+	failLater = append(failLater, msg)
+	failLaterMu.Unlock()
+}
+
 func Main(m *testing.M) {
 	QuietLogs()
 	code := m.Run()
 	Rec.Flush()
+	failLaterMu.Lock()
+	msgs := failLater
+	failLaterMu.Unlock()
+	if len(msgs) > 0 {
+		for _, s := range msgs {
+			fmt.Printf("--- FAIL: violation found by shared helper code: %s\n", s)
+		}
+		if code == 0 {
+			fmt.Println("FAIL")
+			code = 1
+		}
+	}
 	os.Exit(code)
 }
 
